@@ -59,7 +59,7 @@ var c13Cps = map[int32][]string{
 }
 
 func genC13(t *rapid.T, w *world.World) caseC13 {
-	n := pick(t, "n", []int{0, 1, 2, 3, 5, 8, 13, 21, 40, 60})
+	n := pick(t, "n", []int{0, 1, 2, 3, 5, 8, 13, 21, 40, 60, 60, 130, 250})
 	var c caseC13
 	for i := 0; i < n; i++ {
 		l := fmt.Sprintf("e%d", i)
